@@ -122,6 +122,7 @@ type Tx struct {
 	N       int
 	Signers []string // A<i> tokens of the keys that sign, in order
 	Granter string   // A<i> or "-"
+	Payer   string   // explicit fee payer A<i>, "-" or "" when not set (optional field payer=)
 	Fee     string   // coin list token or "-"
 	Sig     string   // ok | badkey | badseq
 	Msgs    []Msg
@@ -133,13 +134,23 @@ func (t Tx) Line(verb string) string {
 	for i, m := range t.Msgs {
 		ms[i] = m.String()
 	}
-	return fmt.Sprintf("%s %d signers=%s granter=%s fee=%s sig=%s :: %s",
-		verb, t.N, List(t.Signers), t.Granter, t.Fee, t.Sig, strings.Join(ms, " ; "))
+	payer := ""
+	if t.Payer != "" && t.Payer != "-" {
+		payer = " payer=" + t.Payer
+	}
+	return fmt.Sprintf("%s %d signers=%s granter=%s%s fee=%s sig=%s :: %s",
+		verb, t.N, List(t.Signers), t.Granter, payer, t.Fee, t.Sig, strings.Join(ms, " ; "))
 }
 
 // ParseTx parses the tokens following TX / CHECK.
 func ParseTx(toks []string) (Tx, error) {
 	var t Tx
+	if len(toks) >= 8 && toks[6] == "::" && strings.HasPrefix(toks[3], "payer=") { // optional payer= field
+		t.Payer = strings.TrimPrefix(toks[3], "payer=")
+		toks = append(append([]string{}, toks[:3]...), toks[4:]...)
+	} else {
+		t.Payer = "-"
+	}
 	if len(toks) < 7 || toks[5] != "::" {
 		return t, fmt.Errorf("malformed transaction line")
 	}
